@@ -1234,6 +1234,7 @@ where
         self.pid_pubrec.clear();
         self.pid_pubcomp.clear();
         self.store.clear();
+        self.qos2_publish_handled.clear();
     }
 
     /// Send all stored packets for retransmission
